@@ -4,9 +4,13 @@ package progcheck
 
 import (
 	"fmt"
+	"go/parser"
+	"go/token"
 	"os"
+	"path/filepath"
 	"runtime"
 	"sort"
+	"strconv"
 	"strings"
 	"sync"
 	"time"
@@ -329,4 +333,51 @@ func init() {
 			Deadline = time.Now().Add(time.Duration(s) * time.Second)
 		}
 	}
+}
+
+// BlankImportsDropped compares, file by file, the side-effect imports (`_ "path"`) of the source
+// with those of the generated file: dropping one removes the package's init effects.
+func (fr *FamilyRun) BlankImportsDropped() []core.Failure {
+	var fails []core.Failure
+	for _, b := range fr.Shards {
+		files, _ := filepath.Glob(filepath.Join(b.Dir, "src", "*.go"))
+		for _, f := range files {
+			srcBlank := blankImports(f)
+			if len(srcBlank) == 0 {
+				continue
+			}
+			outFile := filepath.Join(b.Dir, "out", filepath.Base(f))
+			if _, err := os.Stat(outFile); err != nil {
+				continue // rejected or not a processed file
+			}
+			outBlank := map[string]bool{}
+			for _, p := range blankImports(outFile) {
+				outBlank[p] = true
+			}
+			for _, p := range srcBlank {
+				if !outBlank[p] {
+					fails = append(fails, core.Failure{Key: fr.Spec.Name + ":" + filepath.Base(f) + ":_ " + p, Kind: "import-dropped",
+						Detail: "side-effect import removed", What: "a side-effect import of the source file is missing in the generated file, so the package's init no longer runs",
+						Replay: map[string]any{"source_file": f, "generated_file": outFile}})
+				}
+			}
+		}
+	}
+	return fails
+}
+
+func blankImports(file string) []string {
+	fset := token.NewFileSet()
+	af, err := parser.ParseFile(fset, file, nil, parser.ImportsOnly)
+	if err != nil {
+		return nil
+	}
+	var out []string
+	for _, im := range af.Imports {
+		if im.Name != nil && im.Name.Name == "_" {
+			p, _ := strconv.Unquote(im.Path.Value)
+			out = append(out, p)
+		}
+	}
+	return out
 }
